@@ -45,6 +45,7 @@ type HarnessSpec struct {
 	Steps     int64
 	TimeoutS  int
 	NoReplay  bool
+	MapOrderBoth bool // maporder=both: explore map ranges in insertion order and in reverse
 	ScaleFrom int64 // scaleconst: constant value replaced ...
 	ScaleTo   int64 // ... by this one (0,0 = off)
 }
@@ -162,6 +163,8 @@ func DiscoverHarnesses(harnessDir string) ([]*HarnessSpec, map[string][]byte, er
 								spec.Doc = v
 							case "noreplay":
 								spec.NoReplay = v == "1" || v == "true"
+							case "maporder":
+								spec.MapOrderBoth = v == "both"
 							case "scaleconst":
 								// FROM:TO -- every integer constant FROM of the target code evaluates to TO
 								// (a scaled-down frame limit); such a harness cannot replay natively
@@ -435,6 +438,7 @@ func (w *worker) runPath(ex *Explorer, spec *HarnessSpec, fn *ssa.Function, it *
 	in.trailOn = true
 	in.resetScheduler()
 	in.scaleFrom, in.scaleTo = spec.ScaleFrom, spec.ScaleTo
+	in.mapOrderBoth, in.mapOrderDecided, in.mapOrderRev = spec.MapOrderBoth, false, false
 	if strings.HasPrefix(spec.Sched, "symbolic") {
 		in.sched.symbolic = true
 		in.sched.maxPreempt = 2
